@@ -21,7 +21,7 @@ ev == Trace[l]
 Is(e) == l <= Len(Trace) /\ Trace[l].e = e /\ l' = l + 1
 
 DefaultCfg == [mode |-> "onlyonce", qq0 |-> TRUE, maxinflight |-> 100, sessexpiry |-> 7200,
-               srvrecvmax |-> 100, srvaliasmax |-> 10, srvmaxpkt |-> 268435456, msgexpiry |-> 0, maxqueued |-> 1000]
+               srvrecvmax |-> 100, srvaliasmax |-> 10, srvmaxpkt |-> 268435456, msgexpiry |-> 0, maxqueued |-> 1000, hooks |-> FALSE, anydisc |-> FALSE]
 
 TInit == /\ l = 1 /\ BInit(DefaultCfg)
 
@@ -33,12 +33,14 @@ TNext ==
   \/ /\ Is("reset")
      /\ cfg' = [mode |-> ev.mode, qq0 |-> ev.qq0, maxinflight |-> ev.maxinflight, sessexpiry |-> ev.sessexpiry,
              srvrecvmax |-> ev.srvrecvmax, srvaliasmax |-> ev.srvaliasmax, srvmaxpkt |-> ev.srvmaxpkt,
-             msgexpiry |-> ev.msgexpiry, maxqueued |-> ev.maxqueued]
+             msgexpiry |-> ev.msgexpiry, maxqueued |-> ev.maxqueued, hooks |-> ev.hooks, anydisc |-> ev.anydisc]
      /\ subs' = {} /\ conn' = <<>> /\ sess' = <<>> /\ owed' = <<>> /\ gowed' = {}
      /\ ctl' = <<>> /\ ret' = <<>> /\ unack' = <<>> /\ infl' = <<>> /\ last' = <<>>
      /\ ctr' = [pub |-> 0, oid |-> 0]
-  \/ Is("connect")     /\ Connect(ev.k, ev.cid, ev.ver, ev.clean, ev.recvmax, ev.expiry, [maxpkt |-> ev.maxpkt, aliasmax |-> ev.aliasmax])
-  \/ Is("connack")     /\ \/ Connack(ev.k, ev.sp, ev.code)
+     /\ aux' = [wills |-> <<>>, reg |-> <<>>, closedc |-> {}, srvended |-> {}]
+  \/ Is("connect")     /\ Connect(ev.k, ev.cid, ev.ver, ev.clean, ev.recvmax, ev.expiry, [maxpkt |-> ev.maxpkt, aliasmax |-> ev.aliasmax],
+                                   IF ev.haswill THEN [has |-> TRUE] @@ ev.will ELSE NoWill, ev.conn, ev.ms)
+  \/ Is("connack")     /\ \/ Connack(ev.k, ev.sp, ev.code, ev.ms)
                           \/ ConnackFail(ev.k, ev.code)
   \/ Is("subscribe")   /\ Subscribe(ev.k, ev.pid, ev.subid, ev.subs)
   \/ Is("suback")      /\ Suback(ev.k, ev.pid, ev.codes)
@@ -57,13 +59,21 @@ TNext ==
   \/ Is("relout")      /\ PubrelRecv(ev.k, ev.pid)
   \/ Is("pingreq")     /\ Pingreq(ev.k)
   \/ Is("pingresp")    /\ Pingresp(ev.k)
-  \/ Is("disconnect")  /\ ConnEnd(ev.k, ev.expiry)
-  \/ Is("abort")       /\ ConnEnd(ev.k, -1)
-  \/ Is("eof")         /\ ConnEnd(ev.k, -1)
+  \/ Is("disconnect")  /\ IF cfg.hooks THEN ClientBye(ev.k, ev.code, ev.expiry)
+                                         ELSE ConnEnd(ev.k, ev.expiry, ev.code = 0 \/ conn[ev.k].ver # 5, ev.ms)
+  \/ Is("abort")       /\ IF cfg.hooks THEN ClientGone(ev.k) ELSE ConnEnd(ev.k, -1, FALSE, ev.ms)
+  \/ Is("eof")         /\ IF cfg.hooks THEN ClientGone(ev.k) ELSE ConnEnd(ev.k, -1, FALSE, ev.ms)
+  \/ Is("terminate")   /\ ApiTerminate(ev.cid, ev.ms)
+  \/ Is("hook")        /\ \/ ev.h = "register"   /\ HookRegister(ev.cid, ev.conn, ev.resume, ev.ms)
+                          \/ ev.h = "unregister" /\ HookUnregister(ev.cid, ev.conn, ev.ms)
+                          \/ ev.h = "closed"     /\ HookClosed(ev.conn)
+                          \/ ev.h = "will"       /\ WillFire(ev.cid, ev.topic, ev.ms)
+                          \/ ev.h \notin {"register", "unregister", "closed", "will"} /\ UNCHANGED bvars
   \/ Is("srvdisconnect") /\ SrvDisconnect(ev.k, ev.code)
   \/ Is("quiet")       /\ Quiet(ev.ms)
   \/ Is("dropped")     /\ Dropped(ev.cid, ev.tag, ev.reason, ev.ms)
   \/ Is("note")        /\ UNCHANGED bvars
+  \/ Is("raw")         /\ UNCHANGED bvars
 
 TSpec == TInit /\ [][TNext]_tvars
 
